@@ -223,6 +223,32 @@ C17Step ==
   /\ (Op = "add_assertion_salted" /\ OkStep /\ ~Arg(4)) => Res = AddAssertion(Src, Arg(2), Arg(3))
 C17Prop == [][C17Step]_vars
 
+(* ---- C18 ---------------------------------------------------------------*)
+C18Step ==
+  /\ (Op = "expression" /\ OkStep) =>
+        /\ \E x \in {ParseExpression(Res, NoFn)} : IsOk(x) /\ SameFunction(Val(x)[2], Arg(1))
+        /\ IsOk(ParseExpression(Res, Arg(1)))
+        /\ \A g \in Fns : ~SameFunction(g, Arg(1)) => ~IsOk(ParseExpression(Res, g))
+        /\ Val(ParseExpression(Res, NoFn))[3][2] = {<<Arg(2)[i][1], Dg(reg[Arg(2)[i][2]])>> : i \in 1..Len(Arg(2))}
+  /\ (Op = "request" /\ OkStep) =>
+        LET x == ParseRequest(Res, NoFn) IN
+        /\ IsOk(x) /\ SameFunction(Val(x)[2], Arg(1)) /\ Val(x)[4] = Arg(3) /\ Val(x)[5] = Arg(4) /\ Val(x)[6] = Arg(5)
+        /\ Val(x)[3][2] = {<<Arg(2)[i][1], Dg(reg[Arg(2)[i][2]])>> : i \in 1..Len(Arg(2))}
+        /\ ~IsOk(ParseResponse(Res)) /\ ~IsOk(ParseEvent(Res))
+  /\ (Op = "response" /\ OkStep) =>
+        LET x == ParseResponse(Res) IN
+        /\ IsOk(x) /\ Val(x)[2] = Arg(1) /\ Val(x)[4] = Dg(Arg(3))
+        /\ Arg(1) # "early" => Val(x)[3] = Arg(2)
+        /\ ~IsOk(ParseRequest(Res, NoFn))
+  /\ (Op = "event" /\ OkStep) =>
+        LET x == ParseEvent(Res) IN
+        IsOk(x) /\ Val(x)[2] = Dg(reg[Arg(1)]) /\ Val(x)[3] = Arg(2) /\ Val(x)[4] = Arg(3) /\ Val(x)[5] = Arg(4)
+  (* both or neither of result / error, a wrongly tagged subject: rejected *)
+  /\ (Op = "malform" /\ OkStep /\ Arg(2) \in {"add_error", "add_result", "drop_result", "drop_error", "retag_subject", "subject_other_kv"}) =>
+        ~IsOk(ParseResponse(Res))
+  /\ (Op = "malform" /\ OkStep /\ Arg(2) \in {"drop_body", "second_body", "retag_subject"}) => ~IsOk(ParseRequest(Res, NoFn))
+C18Prop == [][C18Step]_vars
+
 (* ---- C19 ---------------------------------------------------------------*)
 C19Step ==
   /\ (Op = "add_attachment" /\ OkStep) =>
